@@ -73,6 +73,8 @@ def base_matrix(name, parameter=None):
         return phase(math.pi / 2)
     if name == "T":
         return phase(math.pi / 4)
+    if name == "SDAG":
+        return phase(-math.pi / 2)
     if name in ("RX", "CRX"):
         return rx(p)
     if name in ("RY", "CRY"):
@@ -288,3 +290,26 @@ def dm_measure_dephase(rho, q, n):
     p0 = embed(np.array([[1, 0], [0, 0]], dtype=complex), [q], [], n)
     p1 = embed(np.array([[0, 0], [0, 1]], dtype=complex), [q], [], n)
     return p0 @ rho @ p0 + p1 @ rho @ p1
+
+
+# ---------------------------------------------------------------------------------------------
+# mid-circuit measurement (plain MEASURE gates; classical control lives in props/c10.py)
+
+def run_branch(gates, n, outcomes, initial=None):
+    """Follow one measurement branch.  gates may contain ("MEASURE", [q], None, par).
+
+    Returns (normalised final state or None if the branch has zero probability, branch probability)."""
+    s = zero_state(n).reshape(-1) if initial is None else np.asarray(initial, dtype=complex).reshape(-1)
+    prob = 1.0
+    k = 0
+    for g in gates:
+        name, tg, ct, par = gate_tuple(g)
+        if name == "MEASURE":
+            s, p = project(s, n, tg[0], int(outcomes[k]))
+            k += 1
+            prob *= p
+            if s is None:
+                return None, 0.0
+        else:
+            s = apply_gate(s.reshape((2,) * n), n, (name, tg, ct, par)).reshape(-1)
+    return s, prob
